@@ -671,7 +671,7 @@ fn nfs_scan_scenario(k: usize, dir: &std::path::Path) -> Result<Vec<Op>, String>
             Stop::Done => {}
             Stop::ParkedInLock => return Err(format!("get_base_time_unlocked WAITS for the base-time writer lock held by a suspended refresh (its steps: {:?})", events)),
             Stop::StepCap => return Err(format!("get_base_time_unlocked does not complete within {} steps while a refresh is suspended", STEP_CAP)),
-            Stop::Timeout => return Err(format!("get_base_time_unlocked did not return within 2 s while a refresh is suspended after {} steps and a registration is queued behind it: it waits (outside the base-time lock) for the suspended writer (its steps so far: {:?})", k, events)),
+            Stop::Timeout | Stop::BlockedInKernel => return Err(format!("get_base_time_unlocked did not return within 2 s while a refresh is suspended after {} steps and a registration is queued behind it: it waits (outside the base-time lock) for the suspended writer (its steps so far: {:?})", k, events)),
             other => return Err(format!("harness: get_base_time_unlocked stopped at {:?}", other)),
         }
         if events.iter().any(|e| matches!(e, Op::Lock | Op::TryLock)) {
